@@ -53,6 +53,8 @@ struct network_ssl_ctx {
 	int waiting_r;
 	int waiting_w;
 	void * immediate_cookie;
+	int inpoke;
+	int closed;
 
 	/* Pending read operation. */
 	int (* read_callback)(void *, ssize_t);
@@ -446,31 +448,50 @@ dowrite(struct network_ssl_ctx * ssl)
 static int
 poke(struct network_ssl_ctx * ssl)
 {
+	int rc = -1;
+
+	/*
+	 * A callback might call network_ssl_close; while we are in here, that
+	 * only marks the context as closed and we free it before returning.
+	 */
+	ssl->inpoke = 1;
 
 	/* Should we try to read? */
 	if (ssl->read_callback != NULL &&
 	    !ssl->read_needs_r && !ssl->read_needs_w) {
 		if (doread(ssl))
-			goto err0;
+			goto done;
+		if (ssl->closed)
+			goto ok;
 	}
 
 	/* Should we try to write? */
 	if (ssl->write_callback != NULL &&
 	    !ssl->write_needs_r && !ssl->write_needs_w) {
 		if (dowrite(ssl))
-			goto err0;
+			goto done;
+		if (ssl->closed)
+			goto ok;
 	}
 
 	/* Wait for socket readability/writability as needed. */
 	if (setupevents(ssl))
-		goto err0;
+		goto done;
 
+ok:
 	/* Success! */
-	return (0);
+	rc = 0;
 
-err0:
-	/* Failure! */
-	return (-1);
+done:
+	/* If the context was closed by a callback, free it now. */
+	ssl->inpoke = 0;
+	if (ssl->closed) {
+		SSL_free(ssl->ssl);
+		free(ssl);
+	}
+
+	/* Return status. */
+	return (rc);
 }
 
 /**
@@ -497,6 +518,7 @@ network_ssl_open(int s, const char * hostname)
 	ssl->s = s;
 	ssl->waiting_r = ssl->waiting_w = 0;
 	ssl->immediate_cookie = NULL;
+	ssl->inpoke = ssl->closed = 0;
 	ssl->read_callback = NULL;
 	ssl->read_cookie = NULL;
 	ssl->read_buf = NULL;
@@ -730,8 +752,16 @@ network_ssl_close(struct network_ssl_ctx * ssl)
 	assert(ssl->waiting_r == 0);
 	assert(ssl->waiting_w == 0);
 
-	/* Shut down and free the SSL context. */
+	/* Shut down the SSL connection. */
 	SSL_shutdown(ssl->ssl);
+
+	/* If we were called from a callback, poke() will free the context. */
+	if (ssl->inpoke) {
+		ssl->closed = 1;
+		return;
+	}
+
+	/* Free the SSL context. */
 	SSL_free(ssl->ssl);
 
 	/* Free our state structure. */
